@@ -118,6 +118,9 @@ def gen_values(rng, n, shape, family):
                 # a large common offset, a small spread (detector pedestal): the variance must come out of the spread, not be
                 # lost in the square of the offset — every value is exactly representable
                 return OFFSET[0] + rng.randint(-64, 64) / 8.0
+            if family == 'sqrtmax':
+                # beyond the square root of the largest float (1.34e154): the values cannot be squared, their deviations can
+                return float(2 ** 515) + rng.randint(-8, 8) * float(2 ** 485)
             if family == 'nearmax':
                 # finite, and so is every mean / extremum of them — but their SUM is not: nothing may be summed up
                 return rng.choice([1.0, 1.0, 1.0, -1.0]) * rng.uniform(0.9, 1.7) * 1e308
@@ -315,7 +318,8 @@ def check(ctx):
         if kind == 'cov' and int(np.prod(shape)) > 4:
             shape = (2,)
         family = rng.choice(['int', 'dyadic', 'tied', 'mixed', 'big', 'narrowint'] + (['mixedwidth'] * 3 if kind in ('min', 'max') else [])
-                            + (['nearmax'] if kind in ('min', 'max', 'mean', 'counter') else []) + ['offset'])
+                            + (['nearmax'] if kind in ('min', 'max', 'mean', 'counter') else []) + ['offset']
+                            + (['sqrtmax'] if kind in ('var', 'cov', 'mean') else []))
         n = rng.choice([1, 2, 3, 4, 5, 8, 13, 30] if ctx.quick else [1, 2, 3, 5, 8, 13, 30, 60, 150])
         cases.append((kind, gen_values(rng, n, shape, family), family))
     lines, spans, progs = [], [], []
@@ -338,7 +342,7 @@ def check(ctx):
         flatvals = [acclib.flat(v)[1] for v in vals] if kind != 'counter' else [[Fraction(0)] for _ in vals]
         mx = max([abs(x) for c in flatvals for x in c] + [Fraction(1)])
         scale = mx * mx if kind in ('var', 'cov') else mx
-        if fam == 'offset':
+        if fam in ('offset', 'sqrtmax'):
             scale = spread_scale(kind, flatvals, scale)
         case = {'kind': kind, 'values': vals, 'family': fam, 'history_ops': hop}
         distinct = len({tuple(c) for c in flatvals}) >= 2
